@@ -38,6 +38,7 @@ ASSUMPTIONS = ["yield points are source lines of the recoco hand-off "
 REQUIRED = ["schedules", "distinct_interleavings", "preempting_schedules",
             "calllater_functions_checked", "wakes_checked", "sync_sections",
             "sync_sections_that_take_longer_than_the_poll_interval",
+            "wakes_of_a_task_that_was_queued_by_its_own_doing",
             "lock_programs", "lock_waits", "threaded_hub_runs",
             "inline_hub_runs", "burst_handoffs",
             "handed_over_functions_that_raise", "handoffs_by_cooperative_tasks",
@@ -181,12 +182,19 @@ def run_scenario (scn, schedule, policy, seed):
         yield False
     class Sleeper (rc.BaseTask):
       def run (self_):
+        # (optionally it is busy first - queued by its own doing, so that a
+        #  wake-up from outside finds it queued already - and only then goes
+        #  to sleep)
+        for i in range(scn.get("sleeper_spins", 0)):
+          yield 0
         while True:
           order[0] += 1
           obs["log"].append(("step", "sleeper", order[0]))
           obs["wakes"] += 1
           state["sleeper_runs"] = state.get("sleeper_runs", 0) + 1
+          state["sleeper_asleep"] = True
           yield False
+          state["sleeper_asleep"] = False
     if scn.get("napper"):
       # a cooperative task that keeps registering short timed waits with the
       # hub while the foreign threads do their hand-offs: each registration is
@@ -280,10 +288,18 @@ def run_scenario (scn, schedule, policy, seed):
           if state["spinner"] in sched._ready: obs["spin_wakes_found_queued"] = \
               obs.get("spin_wakes_found_queued", 0) + 1
           sched.schedule(state["spinner"])
-        elif op == "wake":
-          state["last_wake_runs"] = state.get("sleeper_runs", 0)
-          state["wake_pending"] = True
-          obs["pending_wake"] = True
+        elif op in ("wake", "wake_late"):
+          if op == "wake_late":
+            # a wake-up that is certainly issued after the task went to sleep
+            ctl.block(lambda: state.get("sleeper_asleep"), None, "await-asleep")
+          if state.get("sleeper_asleep") or not scn.get("sleeper_spins"):
+            state["last_wake_runs"] = state.get("sleeper_runs", 0)
+            state["wake_pending"] = True
+            obs["pending_wake"] = True
+            obs["wakes_while_asleep"] = obs.get("wakes_while_asleep", 0) + 1
+          else:
+            # (the task is still busy: this wake-up changes nothing)
+            obs["wakes_while_busy"] = obs.get("wakes_while_busy", 0) + 1
           sched.schedule(sleeper)
         elif op in ("sync", "sync2", "sync_long"):
           with sched.synchronized():
@@ -435,12 +451,14 @@ def judge (scn, obs, fire, rep):
              "thread %s seq %d ran on logical thread %r (scheduler is %r)" %
              (tag, s, lid, obs["sched_lid"])); return
   # wake-ups
-  nwake = sum(1 for ops in scn["threads"] for o in ops if o == "wake") + \
+  nwake = sum(1 for ops in scn["threads"] for o in ops if o in ("wake", "wake_late")) + \
       sum(1 for o in scn.get("coop", ()) if o == "wake")
   if nwake:
     rep.count("wakes_checked", nwake)
+    if obs.get("wakes_while_busy"):
+      rep.count("wakes_of_a_task_that_was_queued_by_its_own_doing", obs["wakes_while_busy"])
     runs = obs["wakes"]
-    if runs < 2:
+    if runs < 2 and obs.get("wakes_while_asleep", 0) > 0:
       fire("woken task never ran", "sleeper ran %d times in total" % runs); return
     if runs > 1 + nwake:
       fire("woken task ran more often than it was woken",
@@ -534,6 +552,11 @@ SCENARIOS = [
   dict(threads=[["sync", "sync"], ["cl"]], threaded_hub=True, start_first=True, ticks=14),
   dict(threads=[["sync2", "sync"]], threaded_hub=False, start_first=True, ticks=14),
   dict(threads=[["sbatch", "sync"], ["cl"]], threaded_hub=True, start_first=True, exc="SystemExit", ticks=10),
+  # a task that is woken while it is still busy, goes to sleep, is woken again
+  dict(threads=[["wake", "wake", "wake_late"], ["wake", "cl"]], threaded_hub=True,
+       start_first=True, sleeper_spins=12),
+  dict(threads=[["wake", "wake_late", "wake_late"]], threaded_hub=False,
+       start_first=True, sleeper_spins=6),
   dict(threads=[["sync_long"], ["sync_long"]], threaded_hub=True, start_first=True, ticks=40,
        ticks_stop_with_threads=True, tick_nap=0.5),
   dict(threads=[["sync_long", "cl"], ["cl", "sync_long"]], threaded_hub=False, start_first=True,
